@@ -4,13 +4,13 @@ xarray results), exceptions classified by CAUSE (not collapsed to one token); an
 
 Case format (JSON-able dict):
   op, backend ("np" | "da" | "ds": container of the array arguments), dtype ("i64" default | "i32" | "u8" | "bool" |
-  "f64"), args (nested lists / scalars; floats as Python floats or the strings "nan" "inf" "-inf"), shapes (optional,
+  "f64" | "i8" | "i16" | "u16" | "u32" | "u64" | "f32" | "f16" | "c64" | "c128"; complex values are strings "re+imj"), args (nested lists / scalars; floats as Python floats or the strings "nan" "inf" "-inf"), shapes (optional,
   explicit shape per argument: needed for zero extents), args2 / dtype2 / shapes2 (variable "v" of a Dataset),
   v_drop (axis of "u" that "v" does not have), py (per argument None | "int" | "float": Python scalar operand),
   conts (per argument container, overrides backend: mixed calls), coords (True: every dimension labelled 10,11,… |
   list per argument of per-axis label lists / None), axis (None | int | [ints]), style ("axis" | "dim"),
   dimkind ("int" | "npint" | "name" | "absent"; take), index, index_type ("int" | "npint" | "list" | "ndarray" |
-  "ndarray0d"), method ("sel"), nested, batches, literal, stack_dim_exists, concat_dim_missing, approx.
+  "ndarray0d"), index_dtype (integer dtype of an ndarray / NumPy-scalar index; default i64), method ("sel"), nested, batches, literal, stack_dim_exists, concat_dim_missing, approx.
 Dimension names are right-aligned: an argument of rank r in a call of maximal rank R has dims d(R-r) … d(R-1).
 """
 import json
@@ -25,8 +25,39 @@ ALL_OPS = VARIADIC + BINARY + ["take"]
 NP_NAME = {"pow": "power", "concat": "concatenate"}
 FLOAT_OPS = {"mean", "std", "var", "divide"}
 
-DT_NP = {"i64": np.int64, "i32": np.int32, "u8": np.uint8, "u64": np.uint64, "bool": np.bool_, "f64": np.float64}
-NP_DT = {"int64": "i64", "int32": "i32", "uint8": "u8", "uint64": "u64", "bool": "bool", "float64": "f64"}
+DT_NP = {"i64": np.int64, "i32": np.int32, "u8": np.uint8, "u64": np.uint64, "bool": np.bool_, "f64": np.float64,
+         # second audit: the rest of NumPy's numeric dtypes
+         "i8": np.int8, "i16": np.int16, "u16": np.uint16, "u32": np.uint32, "f32": np.float32, "f16": np.float16,
+         "c64": np.complex64, "c128": np.complex128}
+NP_DT = {np.dtype(v).name: k for k, v in DT_NP.items()}
+INT_DTS = ("i64", "i32", "u8", "u64", "i8", "i16", "u16", "u32")
+FL_NARROW = ("f32", "f16")
+FLOATS = ("f64",) + FL_NARROW
+COMPLEX = ("c64", "c128")
+INEXACT = FLOATS + COMPLEX
+INT_RANGE = {"i8": (-2 ** 7, 2 ** 7 - 1), "i16": (-2 ** 15, 2 ** 15 - 1), "i32": (-2 ** 31, 2 ** 31 - 1), "i64": (-2 ** 63, 2 ** 63 - 1),
+             "u8": (0, 2 ** 8 - 1), "u16": (0, 2 ** 16 - 1), "u32": (0, 2 ** 32 - 1), "u64": (0, 2 ** 64 - 1)}
+# How the TIE compares the VALUES of a result whose arguments have a narrow float / complex dtype (result dtype, shape,
+# error cause and labels are compared for every dtype; the ORACLE compares every value with NumPy itself, bit for bit):
+#  exact  -- float32: every operation but pow (Model/F64.lean `Alg.f32`: the binary64 operation followed by rounding to binary32,
+#            which for +, -, *, / is the correctly rounded binary32 operation -- the double-rounding fact cited there);
+#            float16: min, max, stack, concat, take (no arithmetic) and add, subtract, multiply, divide (`Alg.f16`);
+#  opaque -- float32 pow (libm's powf is not correctly rounded), float16 sum, prod, mean, var, std, pow (NumPy accumulates
+#            float16 reductions in float32: not modelled) and all
+#            complex data (only the real part travels): values are NOT compared by the tie.
+MOVE_OPS = ("min", "max", "stack", "concat", "take")
+ROUND_OPS = ("add", "subtract", "multiply", "divide")
+
+
+def value_mode(case, key="args"):
+    dt = dtype_of(case, key)
+    if dt in COMPLEX:
+        return "opaque"
+    if dt == "f16" and not (case["op"] in MOVE_OPS or case["op"] in ROUND_OPS):
+        return "opaque"
+    if dt == "f32" and case["op"] == "pow":
+        return "opaque"          # powf is not correctly rounded (7 ** -2 is one ulp off 1/49): no bit-exact model
+    return "exact"
 
 
 # ----------------------------------------------------------------------------- float64 <-> ordinal
@@ -50,14 +81,19 @@ def funkey(k):
 
 
 def fdec(v):
-    """case value -> Python number"""
+    """case value -> Python number (strings: "nan" "inf" "-inf", or a complex number such as "1.5-2j" "nan+infj")"""
     if isinstance(v, str):
-        return float(v)
+        try:
+            return float(v)
+        except ValueError:
+            return complex(v)
     return v
 
 
 def fenc(x):
-    """Python float -> case value (JSON-safe)"""
+    """Python float / complex -> case value (JSON-safe)"""
+    if isinstance(x, complex):
+        return repr(x).strip("()")
     if isinstance(x, float):
         if x != x:
             return "nan"
@@ -230,12 +266,13 @@ def call(case, objs):
     if op == "take":
         ix = case["index"]
         it = case.get("index_type")
+        idt = DT_NP[case.get("index_dtype", "i64")]      # (second audit: indices of every integer dtype)
         if it == "ndarray":
-            ix = np.array(ix, dtype=np.int64)
+            ix = np.array(ix, dtype=idt)
         elif it == "ndarray0d":
-            ix = np.array(ix, dtype=np.int64)
+            ix = np.array(ix, dtype=idt)
         elif it == "npint":
-            ix = np.int64(ix)
+            ix = idt(ix)
         return f(objs[0], ix, **kw)
     if op in BINARY and case.get("nested"):
         return f(list(objs), **kw)
@@ -348,20 +385,28 @@ def enc_values(a):
         return dt, [int(x) for x in fl]
     if a.dtype.kind in "iu":
         return dt, [int(x) for x in fl]
+    if a.dtype.kind == "c":
+        return dt, [fkey(x.real) for x in fl]           # (only the real part travels; complex values are opaque to the tie)
     return dt, [repr(x) for x in fl]
 
 
-def canon_impl(status, val):
+def _mode_of(case, vi):
+    return "exact" if case is None else value_mode(case, "args" if vi == 0 else "args2")
+
+
+def canon_impl(status, val, case=None):
     if status == "error":
         return [{"error": val[0]}]
     out = []
-    for v in val:
+    for vi, v in enumerate(val):
         dt, data = enc_values(v["values"])
+        if _mode_of(case, vi) == "opaque":
+            data = None
         out.append({"dtype": dt, "shape": list(v["values"].shape), "data": data, "labels": v["labels"], "extra": v["extra"]})
     return out
 
 
-def canon_model(line, case):
+def canon_model(line, case, vi=0):
     o = json.loads(line)
     if isinstance(o, dict) and "error" in o:
         return {"error": o["error"]}
@@ -372,6 +417,11 @@ def canon_model(line, case):
         # the driver prints the radicand; the square root of a double is correctly rounded
         with np.errstate(all="ignore"):
             data = [fkey(np.sqrt(np.float64(funkey(k)))) for k in data]
+    if case["op"] == "std" and o["dtype"] == "f32":
+        with np.errstate(all="ignore"):
+            data = [fkey(float(np.sqrt(np.float32(funkey(k))))) for k in data]      # (correctly rounded in binary32 as well)
+    if _mode_of(case, vi) == "opaque":
+        data = None
     return {"dtype": o["dtype"], "shape": o["shape"], "data": data, "labels": o["labels"], "extra": []}
 
 
@@ -387,9 +437,10 @@ def same_canon(impl, model, approx=False):
     for x, y in zip(da, db):
         if x == y:
             continue
-        if isinstance(x, str) or isinstance(y, str) or abs(x - y) > 16:     # ordinal distance = ulps
+        narrow = impl.get("dtype") == "f32"           # (one binary32 ulp = 2^29 binary64 ordinals)
+        if isinstance(x, str) or isinstance(y, str) or abs(x - y) > (16 << 29 if narrow else 16):     # ordinal distance = ulps
             fx, fy = funkey(x), funkey(y)
-            if not (abs(fx - fy) <= 1e-12 * max(1.0, abs(fx), abs(fy))):
+            if not (abs(fx - fy) <= (1e-5 if narrow else 1e-12) * max(1.0, abs(fx), abs(fy))):
                 return False
     return True
 
